@@ -50,6 +50,14 @@ type Scenario struct {
 	// tick, so in the default schedule the clock wins against them and
 	// delivering one is a deviation.
 	Slow func(label string) bool
+	// Idle adds, at every decision point, one alternative "idle:<d>" per
+	// duration: the application does nothing for d of virtual time while
+	// the network behaves (frames are forwarded immediately, parked threads
+	// stay parked). One deviation = one such pause (e.g. longer than a
+	// transaction or session timeout), which a chain of ticks cannot express
+	// within a small budget because every tick ends at the first observable
+	// timer effect.
+	Idle []time.Duration
 	// Horizon is the virtual-time limit of the explored phase (default 3 min).
 	Horizon time.Duration
 	// MaxPoints caps decision points (default 600).
@@ -182,6 +190,7 @@ type Exec struct {
 	job     explore.Job
 	mu      sync.Mutex
 	auto    bool
+	pass    bool // frames pass through while the controller idles (threads stay parked)
 	wake    chan struct{}
 	vnet    kfake.VirtualNetwork
 	ports   []int
@@ -374,7 +383,7 @@ func (c *Conn) readClient() {
 		}
 		f := &frame{b: b, key: int16(binary.BigEndian.Uint16(b[4:])), ver: int16(binary.BigEndian.Uint16(b[6:])), corr: int32(binary.BigEndian.Uint32(b[8:]))}
 		x.mu.Lock()
-		auto := x.auto
+		auto := x.auto || x.pass
 		handshake := f.key == 18 || f.key == 17 || f.key == 36
 		if !c.named && !handshake {
 			c.named = true
@@ -402,7 +411,26 @@ func (c *Conn) readClient() {
 	}
 }
 
-func (x *Exec) autoFlag() bool { x.mu.Lock(); defer x.mu.Unlock(); return x.auto }
+func (x *Exec) autoFlag() bool { x.mu.Lock(); defer x.mu.Unlock(); return x.auto || x.pass }
+
+// idle models "the application does nothing for d while the network behaves":
+// frames are forwarded immediately (parked threads stay parked) and the
+// virtual clock runs for d.
+func (x *Exec) idle(d time.Duration) {
+	x.mu.Lock()
+	x.pass = true
+	conns := append([]*Conn(nil), x.conns...)
+	x.mu.Unlock()
+	for _, c := range conns {
+		c.pump()
+	}
+	time.Sleep(d)
+	synctest.Wait()
+	x.mu.Lock()
+	x.pass = false
+	x.mu.Unlock()
+	synctest.Wait()
+}
 
 // pump forwards everything deliverable on this connection (pass-through mode
 // and handshake frames).
@@ -410,7 +438,7 @@ func (c *Conn) pump() {
 	auto := c.x.autoFlag()
 	for {
 		c.mu.Lock()
-		if c.closed || (c.stalled && !auto) {
+		if c.closed || c.stalled { // (Auto() clears stalled; an idle pause does not)
 			c.mu.Unlock()
 			return
 		}
@@ -439,7 +467,7 @@ func (c *Conn) readServer() {
 		}
 		corr := int32(binary.BigEndian.Uint32(b[4:]))
 		x.mu.Lock()
-		auto := x.auto
+		auto := x.auto || x.pass
 		x.arrive++
 		seq := x.epoch<<24 | x.arrive&0xffffff
 		x.mu.Unlock()
@@ -630,7 +658,8 @@ func (c *Conn) deliverReq(rewrite int16) {
 	c.reqQ = c.reqQ[1:]
 	c.slots = append(c.slots, &slot{req: f, rewrite: rewrite})
 	c.mu.Unlock()
-	if c.x.FrameHook != nil && !f.handshake {
+	// (handshake first: those frames flow while Setup may still be assigning FrameHook)
+	if !f.handshake && c.x.FrameHook != nil {
 		c.x.FrameHook(c, "req", f.key, f.ver, f.b)
 	}
 	c.toSrv.put(f.b)
@@ -645,7 +674,7 @@ func (c *Conn) deliverResp() {
 	s := c.slots[0]
 	c.slots = c.slots[1:]
 	c.mu.Unlock()
-	if c.x.FrameHook != nil && !s.req.handshake {
+	if !s.req.handshake && c.x.FrameHook != nil {
 		c.x.FrameHook(c, "resp", s.req.key, s.req.ver, s.resp)
 	}
 	c.toCli.put(s.resp)
@@ -950,6 +979,10 @@ func (x *Exec) run() {
 			order = append(order, event{label: "tick"})
 		}
 		order = append(order, slow...)
+		for _, d := range sc.Idle {
+			d := d
+			order = append(order, event{label: "idle:" + d.String(), fire: func() { x.idle(d) }})
+		}
 		labels := make([]string, 0, len(order))
 		for _, e := range order {
 			labels = append(labels, e.label)
